@@ -346,6 +346,12 @@ def run(rep, info, model, tier, seed):
     fscs = fault_scenarios(rnd, 150 if tier == "quick" else 3000)
     fam.run_family(rep, model, "C03:failing-writes", fscs, fault_oracle, project=fam.no_waits,
                    rule="2-5 sends with one or two failing sendall calls (connection reset, EINTR, EPIPE, EAGAIN, arbitrary exceptions, error texts with format characters): the failing call raises and writes nothing more, the other calls write exactly their frame; results and bytes compared with the model")
+    # connections with permessage-deflate: what the client writes must inflate, in wire order, to what was sent; a send with
+    # compress=False must go out raw.  Several connections per process, so that anything shared between compressors shows.
+    from . import c06
+    zscs = [c06.gen(rnd, rnd.choice([9, 12, 15]), rnd.choice([8, 10, 15]), rnd.random() < 0.3, rnd.random() < 0.4) for _ in range(60 if tier == "quick" else 1500)]
+    fam.run_family(rep, model, "C03:frames-on-compressed-connections", zscs, c06.oracle, project=lambda t: [it for it in t if it[0] != 10],
+                   rule="message histories on connections that negotiated permessage-deflate (several per worker process): every data frame the client writes is decoded, RSV1 set exactly for sends with compress=True, and an independent RFC 7692 peer inflates the payloads in wire order to the messages sent")
     type_family(rep)
     xor_table(rep)
     if not proof_ok and not rep.violations:
